@@ -1,27 +1,38 @@
 import GoFlags.Driver.FnOps
+import GoFlags.Driver.Case
 open GoFlags GoFlags.Driver
 
-/-- Requests: `oracle …` (no response), any function-level op (one response line), `sync`
-    (responds `SYNC` on stdout and stderr so the harness can align the two streams). -/
-partial def loop (hIn : IO.FS.Stream) (hOut : IO.FS.Stream) (t : Tables) : IO Unit := do
+/-- Requests: `oracle …` (no response); a function-level op (one response line); `sync`
+    (responds `SYNC` on stdout and stderr so the harness can align the two streams);
+    `case` … `run`: a whole-parser case, answered by its observation lines and `DONE`. -/
+partial def loop (hIn : IO.FS.Stream) (hOut : IO.FS.Stream) (t : Tables) (cs : Option CaseState) : IO Unit := do
   let line ← hIn.getLine
   if line.isEmpty then return ()
   let ws := (line.trimAscii.toString.splitOn " ").filter (· ≠ "")
-  match ws with
-  | [] => loop hIn hOut t
-  | "oracle" :: rest =>
+  match cs, ws with
+  | _, [] => loop hIn hOut t cs
+  | _, "oracle" :: rest =>
     match t.addOracle rest with
-    | some t' => loop hIn hOut t'
-    | none => hOut.putStrLn "BAD-ORACLE"; hOut.flush; loop hIn hOut t
-  | ["sync"] =>
+    | some t' => loop hIn hOut t' cs
+    | none => hOut.putStrLn "BAD-ORACLE"; hOut.flush; loop hIn hOut t cs
+  | _, ["sync"] =>
     IO.eprintln "SYNC"
     hOut.putStrLn "SYNC"; hOut.flush
-    loop hIn hOut t
-  | _ =>
+    loop hIn hOut t cs
+  | none, ["case"] => loop hIn hOut t (some {})
+  | some st, ["run"] =>
+    for l in st.out do hOut.putStrLn l
+    match st.bad with
+    | some m => hOut.putStrLn ("BAD-CASE " ++ m)
+    | none => pure ()
+    hOut.putStrLn "DONE"
+    loop hIn hOut t none
+  | some st, ws => loop hIn hOut t (some (caseLine t st ws))
+  | none, _ =>
     match fnOp t.toEnv ws with
     | some r => hOut.putStrLn r
     | none => hOut.putStrLn "BAD-OP"
-    loop hIn hOut t
+    loop hIn hOut t cs
 
 def main : IO Unit := do
-  loop (← IO.getStdin) (← IO.getStdout) {}
+  loop (← IO.getStdin) (← IO.getStdout) {} none
